@@ -41,6 +41,8 @@ class Ctx:
         self.stats: Dict[str, Any] = {}
         self.rules_desc: Dict[str, str] = {}
         self._seen_keys = set()
+        self.level = "other"
+        self.extra_cov: Dict[str, Any] = {}
 
     def rule(self, rid: str, desc: str):
         self.rules_desc[rid] = desc
@@ -192,7 +194,7 @@ def main(argv=None):
 
 
 def write_evidence(prop, tier, seed, ctx: Ctx, wall, nviol, selftest, listed):
-    level = "other"
+    level = ctx.level
     obs = ctx.obligations
     distinct = len({o.key for o in obs})
     samples = [{"rule": o.rule, "instance": o.instance, "where": o.where,
@@ -219,6 +221,7 @@ def write_evidence(prop, tier, seed, ctx: Ctx, wall, nviol, selftest, listed):
         "known_findings_reported": [o.key for o in listed],
         "exhaustive": True,
     }
+    cov.update(ctx.extra_cov)
     if selftest is not None:
         cov["selftest"] = {k: v for k, v in selftest.items() if k != "details"}
         cov["selftest_details"] = selftest.get("details", [])[:80]
